@@ -16,6 +16,7 @@ pub mod c13;
 pub mod c14;
 pub mod c15;
 pub mod c16;
+pub mod c17;
 
 pub fn dispatch(prop: &str, cfg: &Cfg) -> Option<(Log, Meta)> {
   Some(match prop {
@@ -33,6 +34,7 @@ pub fn dispatch(prop: &str, cfg: &Cfg) -> Option<(Log, Meta)> {
     "C14" => c14::run(cfg),
     "C15" => c15::run(cfg),
     "C16" => c16::run(cfg),
+    "C17" => c17::run(cfg),
     _ => return None,
   })
 }
